@@ -1,0 +1,13 @@
+//go:build verif
+
+package node
+
+// Verification hooks, compiled only with `-tags verif`. Add-only.
+
+// VerifPool returns the supervisor's pool bookkeeping: the number of tracked
+// workers, the number of ready ones and the effective minimum. Only call it
+// from a handler or tracer of the supervisor machine (same goroutine
+// discipline as readyWorkers).
+func (s *Supervisor) VerifPool() (tracked, ready, min int) {
+	return len(s.workers), len(s.readyWorkers()), s.min()
+}
